@@ -622,9 +622,19 @@ def detailNames (ns : String) (ds : List NsDecl) : List String :=
 
 def joinPath (path : List String) : String := "_".intercalate path
 
-/-- `make_unique_param_name` -/
+/-- the `while` of `make_unique_param_name`: `_<depth>` is appended as long as the name is among the existing
+    ones.  `fuel` bounds the iterations; `existing.length + 1` always suffice (`uniqueLoop_terminates`: every
+    iteration lengthens the name, so it can meet each existing name at most once) -/
+def uniqueLoop (existing : List String) (depth : Nat) : Nat → String → Option String
+  | 0, _ => none
+  | fuel + 1, name =>
+    if existing.contains name then uniqueLoop existing depth fuel (name ++ "_" ++ toString depth) else some name
+
+/-- `make_unique_param_name`: the loop of fix 0030 when `Extracted.Templates.uniqueParamLoops` says the generator
+    has it, one `_<depth>` at most otherwise -/
 def uniqueParam (desired : String) (existing : List String) (depth : Nat) : String :=
-  if existing.contains desired then desired ++ "_" ++ toString depth else desired
+  if Templates.uniqueParamLoops then (uniqueLoop existing depth (existing.length + 1) desired).getD desired
+  else if existing.contains desired then desired ++ "_" ++ toString depth else desired
 
 mutual
   /-- `get_group_size_bytes_params` -/
@@ -644,6 +654,26 @@ mutual
     | [] => false
     | g :: gs => groupHasData g || groupsHaveData gs
 end
+
+mutual
+  def groupCount : GroupDef → Nat
+    | .mk _ _ _ _ _ groups _ _ => 1 + groupsCount groups
+  def groupsCount : List GroupDef → Nat
+    | [] => 0
+    | g :: gs => groupCount g + groupsCount gs
+end
+
+/-- `make_group_size_bytes_args`: the last `n` parameter names, then `0` for the data size -/
+def groupArgs (names : List String) (n : Nat) (hasData : Bool) : List String :=
+  names.drop (names.length - n) ++ (if hasData then ["0"] else [])
+
+/-- the calls `group_traits<G>::size_bytes(args)` inside `message_traits<M>::size_bytes`
+    (`make_message_size_bytes_impl`): the group and the argument list -/
+def messageCalls (names : List String) : List GroupDef → List (GroupDef × List String)
+  | [] => []
+  | g :: gs =>
+    let names' := msgGroupParams [] names g
+    (g, groupArgs names' (names'.length - names.length) (groupHasData g)) :: messageCalls names' gs
 
 /-- parameter names of `message_traits<M>::size_bytes` -/
 def messageSizeParams (m : MessageDef) : List String :=
